@@ -10,9 +10,9 @@ import (
 	"github.com/google/pprof/profile"
 )
 
-// matchTable renders the answers of Go's regexp engine for every (expression, subject) pair:
+// c06MatchTable renders the answers of Go's regexp engine for every (expression, subject) pair:
 // TL [ TL universe ; TL [ TL [TS rx; TZ compiles; TL matching subjects] ... ] ].
-func matchTable(universe []string, rxs []string) Term {
+func c06MatchTable(universe []string, rxs []string) Term {
 	seenU := map[string]bool{}
 	var us []string
 	for _, s := range universe {
@@ -43,15 +43,15 @@ func matchTable(universe []string, rxs []string) Term {
 	return L(Ss(us), L(ents...))
 }
 
-func optS(s *string) Term {
+func c06OptS(s *string) Term {
 	if s == nil {
 		return L()
 	}
 	return L(S(*s))
 }
 
-// obsProfile is the observable part of a filtered profile: samples and locations.
-func obsProfile(p *profile.Profile) []Term {
+// c06ObsProfile is the observable part of a filtered profile: samples and locations.
+func c06ObsProfile(p *profile.Profile) []Term {
 	var ss, ls []Term
 	for _, s := range p.Sample {
 		ss = append(ss, DumpSample(s))
@@ -62,8 +62,8 @@ func obsProfile(p *profile.Profile) []Term {
 	return []Term{L(ss...), L(ls...)}
 }
 
-// guard runs f and turns a panic into an observable.
-func guard(f func() Term) (t Term) {
+// c06Guard runs f and turns a panic into an observable.
+func c06Guard(f func() Term) (t Term) {
 	defer func() {
 		if r := recover(); r != nil {
 			t = L(S("panic"), S(fmt.Sprint(r)))
@@ -72,8 +72,8 @@ func guard(f func() Term) (t Term) {
 	return f()
 }
 
-// stackKnobs describes the small stack-shaped profiles used by C06 and C11.
-type stackKnobs struct {
+// c06StackKnobs describes the small stack-shaped profiles used by C06 and C11.
+type c06StackKnobs struct {
 	Names    []string
 	Files    []string
 	MapFiles []string
@@ -84,8 +84,8 @@ type stackKnobs struct {
 	NoMap    bool // locations without mapping
 }
 
-// genStacks builds a valid profile with dense ids; shape choices all come from r.
-func genStacks(r *Rng, k stackKnobs) *profile.Profile {
+// c06GenStacks builds a valid profile with dense ids; shape choices all come from r.
+func c06GenStacks(r *Rng, k c06StackKnobs) *profile.Profile {
 	p := &profile.Profile{SampleType: []*profile.ValueType{{Type: "samples", Unit: "count"}}}
 	if r.P(1, 3) {
 		p.SampleType = append(p.SampleType, &profile.ValueType{Type: "cpu", Unit: "ms"})
@@ -133,40 +133,40 @@ func genStacks(r *Rng, k stackKnobs) *profile.Profile {
 			s.Value = append(s.Value, int64(r.Intn(50))-5)
 		}
 		if k.Labels && r.P(1, 2) {
-			genLabels(r, s)
+			c06GenLabels(r, s)
 		}
 		p.Sample = append(p.Sample, s)
 	}
 	return p
 }
 
-var labKeys = []string{"k", "key", "bytes", "req", "a"}
-var labVals = []string{"v", "val", "x1", "k", "a:b", "tag", "10", "5kb"}
-var numUnits = []string{"", "bytes", "kb", "ms", "s", "foo"}
+var c06LabKeys = []string{"k", "key", "bytes", "req", "a"}
+var c06LabVals = []string{"v", "val", "x1", "k", "a:b", "tag", "10", "5kb"}
+var c06NumUnits = []string{"", "bytes", "kb", "ms", "s", "foo"}
 
-func genLabels(r *Rng, s *profile.Sample) {
+func c06GenLabels(r *Rng, s *profile.Sample) {
 	if r.P(2, 3) {
 		s.Label = map[string][]string{}
 		for j := r.Intn(3); j >= 0; j-- {
 			var vs []string
 			for q := 1 + r.Intn(2); q > 0; q-- {
-				vs = append(vs, PickS(r, labVals))
+				vs = append(vs, PickS(r, c06LabVals))
 			}
-			s.Label[PickS(r, labKeys)] = vs
+			s.Label[PickS(r, c06LabKeys)] = vs
 		}
 	}
 	if r.P(2, 3) {
 		s.NumLabel = map[string][]int64{}
 		s.NumUnit = map[string][]string{}
 		for j := r.Intn(2); j >= 0; j-- {
-			key := PickS(r, labKeys)
+			key := PickS(r, c06LabKeys)
 			n := 1 + r.Intn(3)
 			var vs []int64
 			us := make([]string, n)
 			for q := 0; q < n; q++ {
 				vs = append(vs, PickI(r, []int64{0, 1, 5, 10, 512, 1024, 2048, 4096, 5000, 5120, 1000000, -5, -1024, 1 << 20, 3}))
 			}
-			u := PickS(r, numUnits)
+			u := PickS(r, c06NumUnits)
 			for q := range us {
 				us[q] = u
 			}
